@@ -97,7 +97,7 @@ def check_joint_run(ctx, r):
 def run(ctx):
     from fast_ticc import data_preparation as dp
     rng = np.random.default_rng(ctx.seed)
-    ctx.proof_layer(allowed_axioms=R_AX, coq_deps=["Corr/RunStacking"], gen=["data_preparation"])
+    ctx.proof_layer(allowed_axioms=R_AX, coq_deps=["Corr/RunStacking"], gen=["data_preparation", "front_joint"])
     core.note_drift(ctx, ANCHORS)
     cov = core.LineCoverage()
     tuples, hashes = [], []
